@@ -173,27 +173,26 @@ Definition code_range_pair (s : bytes) : pres (N * N * N) :=
   let* (b, r') := source_code (space0 r) in
   if (snd a =? snd b)%N then POk (fst a, fst b, snd a) r' else PFail.
 
-(* separated_list1(space1, target_string), after the first element *)
+(* separated_list1(multispace0, target_string), after the first element (fix: commit 2c2ca77: the
+   strings of an array need no white space between them and the array may run over lines).  The
+   separator never fails; an element that fails gives the separator back.  target_string consumes,
+   so nom's guard "separator and element consumed nothing" can not fire. *)
 Fixpoint target_list_rest (fuel : nat) (s : bytes) : pres (list (list N)) :=
   match fuel with
   | O => POutOfFuel
   | S f =>
-    match space1 s with
-    | POk _ r =>
-      match target_string r with
-      | POk v r' => let* (vs, r'') := target_list_rest f r' in POk (v :: vs) r''
-      | PErr => POk [] s
-      | PFail => PFail | PUnmodelled => PUnmodelled | POutOfFuel => POutOfFuel
-      end
-    | _ => POk [] s
+    match target_string (multispace0 s) with
+    | POk v r' => let* (vs, r'') := target_list_rest f r' in POk (v :: vs) r''
+    | PErr => POk [] s
+    | PFail => PFail | PUnmodelled => PUnmodelled | POutOfFuel => POutOfFuel
     end
   end.
 
 Definition range_target_array (s : bytes) : pres (list (list N)) :=
   let* (_, r) := tag [x5b] s in
-  let* (v, r1) := target_string (space0 r) in
+  let* (v, r1) := target_string (multispace0 r) in
   let* (vs, r2) := target_list_rest (S (length r1)) r1 in
-  let* (_, r3) := tag [x5d] (space0 r2) in
+  let* (_, r3) := tag [x5d] (multispace0 r2) in
   POk (v :: vs) r3.
 
 Definition bf_range_line (s : bytes) : pres ((N * N * N) * list (list N)) :=
